@@ -3,6 +3,13 @@
 import json, subprocess, sys
 
 CHECKS = {
+ "C02": dict(cat="exploration", tech="panic/crash, canary-mutation, determinism, extent non-interference and hang monitors around the three decoders, Stream.Recv and the HTTP handler under seeded hostile inputs in crash-isolated worker processes",
+   text="~1M (quick) / ~20M (thorough) decodes: every item of seeded valid encodings gets the full length/type disagreement ladder, plus truncation at every offset, splices, flips, random bytes, 131072-level nesting, structural JSON/XML mutants, mutated OASIS vectors, and child-beyond-parent pairs decoded with two different fillers, against every top-level target type (generic value, messages, 54 payloads, attribute, objects). Inputs are handed over with cap==len inside canary-guarded buffers and decoded twice. Worker processes isolate fatal errors; a watchdog overrun is replayed alone before it counts. Held on what was executed; not a proof over all byte strings.",
+   note="Answers of the decoders are not judged here. Input length bounded by 64 KiB except the nesting ladders (1 MiB).", ref="§2 C02"),
+ "C06": dict(cat="exploration", tech="differential monitor against pinned operation/object/attribute type tables; inputs built by the independent generator (binary) or from the generic tree (XML/JSON)",
+   text="27 operations x 2 directions x 3 encodings x versions with valid payloads must decode to the pinned Go payload type reporting the same operation and re-encode to the canonical bytes; the 16 named-unimplemented, boundary and seeded random 32-bit codes with arbitrary payloads must come back as opaque TTLV that re-encodes byte-identically; 9 object types in 4 carriers; unknown/mismatching object type codes must be errors; 50 attribute names x 10 TTLV types (right type -> pinned Go type, wrong type -> error); custom/arbitrary names x 10 types preserved.",
+   note="Type tables in harness/gen/ops.go are written from KMIP 1.4; 2^32 operation codes are sampled (boundaries + random).", ref="§2 C06"),
+
  "C01": dict(cat="exploration", tech="differential monitor: library binary encoder/decoder vs an independent reference layout model and strict parser, over seeded well-formed messages with forced coverage",
    text="Each generated message (54k quick / 4M thorough; every operation x direction, object type, key format, standard attribute, credential type forced and counted) is laid out by an independently written reference model (own reflect walk, pinned tag and version tables, hand-modelled batch items/unions/opaque values); the library's bytes must parse strictly to exactly that tree, decode to a message with the same tree, and re-encode to identical bytes. Sampling of an unbounded space with required coverage counters; a run that misses a class exits 2.",
    note="The model reads field order and omitempty from the struct definitions (a wrong omitempty is seen only by C04-B). Pins are the author's reading of KMIP 1.0-1.4.", ref="§2 C01"),
